@@ -142,6 +142,24 @@ def run_exhaustive(ctx, sau, spec):
 def gen_random(rng):
     n = int(rng.integers(1, 41))
     style = int(rng.integers(0, 6))
+    if rng.integers(0, 40) == 0:
+        # element and query of different precision: float32 / float16 elements against Python-float queries that the
+        # narrow type would round onto an element, int64 elements beyond 2**53 against float queries, float64 elements
+        # against large Python-int queries.  The oracle compares the Python scalars exactly.
+        t = int(rng.integers(0, 3))
+        if t == 0:
+            dt = np.float32 if rng.integers(0, 3) else np.float16
+            x = np.unique(np.round(rng.uniform(0, 4, n), 1).astype(dt))
+            qs = np.sort(np.round(rng.uniform(-0.2, 4.2, int(rng.integers(1, 9))), 1))       # decimal values: not representable
+            return x, [float(v) for v in qs]
+        if t == 1:
+            x = (2 ** 53 + np.cumsum(rng.integers(1, 4, n))).astype(np.int64)
+            qs = np.sort(np.array([float(x[int(rng.integers(0, n))]) + float(rng.choice([0.0, 2.0, -2.0]))
+                                   for _ in range(int(rng.integers(1, 9)))]))
+            return x, [float(v) for v in qs]
+        x = 2.0 ** 53 + 4.0 * np.cumsum(rng.integers(1, 4, n)).astype(float)
+        qs = sorted(int(x[int(rng.integers(0, n))]) + int(rng.integers(-3, 4)) for _ in range(int(rng.integers(1, 9))))
+        return x, qs
     if rng.integers(0, 400) == 0:
         # elements spanning more binades than a float has mantissa bits, queries next to the midpoint of two such elements:
         # the two distances differ by less than the rounding of their larger one
@@ -241,15 +259,16 @@ def run_random_case(ctx, sau, kind, idx):
     via = bool(rng.integers(0, 2))
     cont = int(rng.integers(0, 3))
     xx = x if cont != 1 else [v.item() for v in x]
-    qq = qs if cont != 2 else [v.item() for v in qs]
+    qq = qs if (cont != 2 or isinstance(qs, list)) else [v.item() for v in qs]
     form = int(rng.integers(0, 3))
     case = ctx.case_id(kind, idx, strategy=strategy, fill=fill, dispatch=via)
     _one(ctx, sau, case, xx, qq, gen.fresh_str(rng, strategy), fill, via, form)
-    if len(x) == 1 or np.any((qs > x[0]) & (qs < x[-1])):
+    qf = np.asarray(qs, dtype=float)
+    if len(x) == 1 or np.any((qf > float(x[0])) & (qf < float(x[-1]))):
         ctx.nontriv("rnd", idx, strategy, fill)
     ctx.count("random:%s:%s" % (strategy, "fill" if fill else "nofill"))
     if idx % 5000 == 1:
-        ctx.sample({"x": x[:8], "queries": qs[:8], "strategy": strategy, "fill": fill, "n": len(x)})
+        ctx.sample({"x": x[:8], "queries": list(qs[:8]), "strategy": strategy, "fill": fill, "n": len(x)})
 
 
 def run(ctx, spec):
